@@ -441,6 +441,8 @@ def plant_all(decls, ns, rng):
         if k == 'S':
             es = list(d[2]); es.append((es[0][0], 'i'))
             out.append(('struct-dup-element', 'P0003', mut(i, ('S', d[1], es))))
+            # one fresh name used for three elements: every later use is a duplicate of the first one
+            out.append(('struct-element-thrice', 'P0003', mut(i, ('S', d[1], list(d[2]) + [(7991, 'i'), (7991, 'i'), (7991, 'i')]))))
             for j, e in enumerate(d[2]):
                 if len(e) > 2 and e[2] is not None:
                     es = list(d[2]); es[j] = (e[0], e[1], 7998)
@@ -452,6 +454,7 @@ def plant_all(decls, ns, rng):
             out.append(('subrange-min-eq-max', 'P0004', mut(i, ('R', d[1], d[2], d[2]))))
         if k == 'E':
             out.append(('enum-dup-value', 'P0005', mut(i, ('E', d[1], d[2] + [d[2][0]], d[3]))))
+            out.append(('enum-value-thrice', 'P0005', mut(i, ('E', d[1], d[2] + [7990, 7990, 7990], d[3]))))
         if k == 'C':
             for j, (inst, t, p) in enumerate(d[4]):
                 insts = list(d[4]); insts[j] = (inst, 7999, p)
